@@ -15,8 +15,8 @@ package internal_test
 
 import (
 	"net"
-	"sync/atomic"
 	"strings"
+	"sync/atomic"
 	"testing"
 	"time"
 
